@@ -125,7 +125,7 @@ func genPrograms(r *Rand, g *Gen, np int, allowFail bool, entries []string) []Op
 		g.put(name, PageFile(body, fm))
 		for _, e := range entries {
 			op := OpSpec{Kind: "render", Entry: e, File: name, Writer: WriterSpec{FailAt: -1}, Reader: ReaderSpec{FailAfter: -1}}
-			if e == "RenderString" || e == "RenderByte" || e == "RenderReader" {
+			if e == "RenderString" || e == "RenderByte" || e == "RenderReader" || e == "Base.RenderString" {
 				op.Source = body
 			}
 			ops = append(ops, op)
